@@ -143,6 +143,7 @@ static ssize_t scripted_writev(const struct iovec* iov, int iovcnt) {
     }
     free(cp);
     drain_peer();
+    errno = 0;
     return r;
   }
 }
@@ -162,13 +163,14 @@ ssize_t __wrap_sendmsg(int fd, const struct msghdr* m, int flags) {
   return scripted_writev(m->msg_iov, (int) m->msg_iovlen);
 }
 int __wrap_shutdown(int fd, int how) {
-  int r;
+  int r, e;
   if (!g_active || fd != g_fd) return __real_shutdown(fd, how);
   shut_called = 1;
-  if (shutans_script != 0) { shutans_seen = -shutans_script; errno = shutans_script; r = -1; }
-  else { r = __real_shutdown(fd, how); shutans_seen = r == 0 ? 0 : -errno; }
+  if (shutans_script != 0) { shutans_seen = -shutans_script; e = shutans_script; r = -1; }
+  else { r = __real_shutdown(fd, how); e = errno; shutans_seen = r == 0 ? 0 : -e; }
   if (!g_quiet) printf("Y:%d ", shutans_seen);
   drain_peer();
+  errno = e;
   return r;
 }
 
